@@ -156,7 +156,7 @@ func C06(r *report.Report, tier string) {
 	if tier == "thorough" {
 		depth, bound = 4, 3
 	}
-	r.Rule = fmt.Sprintf("(a) breadth-first search to depth %d over a %d-symbol alphabet of requests whose inodes coincide or are ordered arbitrarily (rename onto . / .., directory into itself, over its own parent, stale handles, cold caches after restart), from a fresh and from an inode-inverted image: a single client must never wait on itself, deadlock or exceed the scheduling-point horizon; (b) in named states (children with smaller and larger inode numbers than their parents, cold and warm caches) the lock-acquisition trace of every probe operation is recorded, every pair of operations whose traces acquire two inode locks in opposite orders is a predicted deadlock, and each prediction is confirmed or refuted by exploring all schedules with <=%d deviations of the two operations run concurrently from that state - only a real deadlock schedule is a violation; (c) deadlock/horizon verdicts of the C03 harness schedules", depth, len(c06Alphabet()), bound)
+	r.Rule = fmt.Sprintf("(a) breadth-first search to depth %d over a %d-symbol alphabet of requests whose inodes coincide or are ordered arbitrarily (rename onto . / .., directory into itself, over its own parent, stale handles, cold caches after restart), from a fresh and from an inode-inverted image: a single client must never wait on itself, deadlock or exceed the scheduling-point horizon; (b) in four named states and in every state reached by a few shape-changing operations from a fresh and from an inode-inverted image (children with smaller and larger inode numbers than their parents), each with warm and with cold caches, the lock-acquisition trace of every probe operation is recorded, every pair of operations whose traces acquire two inode locks in opposite orders is a predicted deadlock, and each prediction is confirmed or refuted by exploring all schedules with <=%d deviations of the two operations run concurrently from that state - only a real deadlock schedule is a violation; (c) deadlock/horizon verdicts of the C03 harness schedules", depth, len(c06Alphabet()), bound)
 	r.Only = map[string]bool{"C06": true}
 	s1 := RunSeq(r, "c06.seq", depth)
 	s2 := RunSeq(r, "c06.seq.inv", depth-1)
@@ -167,6 +167,29 @@ func C06(r *report.Report, tier string) {
 		{Setup: []fsx.Op{{K: "MKDIR", H: "root", N: "d"}, {K: "MKDIR", H: "root/d", N: "y"}, {K: "CREATE", H: "root/d", N: "x"}, {K: "CREATE", H: "root", N: "a"}, {K: "RESTART"}}},
 		{Setup: append(append([]fsx.Op{}, invertedSetup...), fsx.Op{K: "MKDIR", H: "root/d2", N: "sub"}, fsx.Op{K: "CREATE", H: "root/d2/sub", N: "x"}, fsx.Op{K: "CREATE", H: "root/d2", N: "a"}, fsx.Op{K: "CREATE", H: "root", N: "a"})},
 		{Setup: append(append([]fsx.Op{}, invertedSetup...), fsx.Op{K: "MKDIR", H: "root/d2", N: "sub"}, fsx.Op{K: "CREATE", H: "root/d2/sub", N: "x"}, fsx.Op{K: "CREATE", H: "root/d2", N: "a"}, fsx.Op{K: "CREATE", H: "root", N: "a"}, fsx.Op{K: "RESTART"})},
+	}
+	// plus every state reached by <= 2 shape-changing operations from the fresh and the inverted image, warm and cold
+	shape := []fsx.Op{{K: "MKDIR", H: "root", N: "d"}, {K: "MKDIR", H: "root/d", N: "y"}, {K: "CREATE", H: "root/d", N: "x"}, {K: "CREATE", H: "root", N: "a"},
+		{K: "MKDIR", H: "root/d2", N: "sub"}, {K: "CREATE", H: "root/d2", N: "a"}, {K: "CREATE", H: "root/d2/sub", N: "x"}, {K: "RMDIR", H: "root", N: "d"}, {K: "REMOVE", H: "root", N: "a"}}
+	shapeDepth := 2
+	if tier == "thorough" {
+		shapeDepth = 3
+	}
+	for _, base := range [][]fsx.Op{nil, invertedSetup} {
+		var rec func(p []fsx.Op, d int)
+		rec = func(p []fsx.Op, d int) {
+			if len(p) > 0 {
+				full := append(append([]fsx.Op{}, base...), p...)
+				states = append(states, lockArg{Setup: full}, lockArg{Setup: append(append([]fsx.Op{}, full...), fsx.Op{K: "RESTART"})})
+			}
+			if d == 0 {
+				return
+			}
+			for _, o := range shape {
+				rec(append(p, o), d-1)
+			}
+		}
+		rec(nil, shapeDepth)
 	}
 	var args []interface{}
 	for _, s := range states {
@@ -202,7 +225,7 @@ func C06(r *report.Report, tier string) {
 				if !inv {
 					continue
 				}
-				k := fmt.Sprintf("%d|%s|%s", si%2, a.Class, b.Class)
+				k := fmt.Sprintf("%s|%s", a.Class, b.Class)
 				if seenPair[k] {
 					continue
 				}
